@@ -29,9 +29,11 @@
 (*   GoCreate(p)   createNewSwamp + Store, return it (release)             *)
 (*   Closed(p)     the swamp it waits for has closed: back to the body     *)
 (*   LockRel(p)    deferred function: waiter.cond.L.Lock()                 *)
-(*   Release(p)    ready=false, Broadcast, Unlock          -> gate released*)
-(*   GoReleased(p) count--                                 -> gate counted *)
+(*   Release(p)    ready=false, Broadcast, Unlock                          *)
+(*   GoReleased(p) count--                                                 *)
 (*   GoCounted(p)  if count = 0: summoningSwamps.Delete(name); return      *)
+(*                 (the deferred function has no gates: these four are     *)
+(*                 steps the goroutine takes on its own)                   *)
 (*   Cancel(p)     the caller's context is cancelled (environment)         *)
 (*   (Start is also possible from "done": the caller calls again.)         *)
 (* Swamp instance i:                                                       *)
@@ -265,11 +267,11 @@ CloseCb(i) ==
 
 \* steps the environment / the harness decides
 Command ==
-  \/ \E p \in Procs : Start(p) \/ Cancel(p) \/ GoLoaded(p) \/ GoSlot(p) \/ GoGot(p) \/ GoCreate(p) \/ GoReleased(p) \/ GoCounted(p)
+  \/ \E p \in Procs : Start(p) \/ Cancel(p) \/ GoLoaded(p) \/ GoSlot(p) \/ GoGot(p) \/ GoCreate(p)
   \/ \E i \in Insts : CloseBegin(i) \/ CloseDone(i)
 \* steps a goroutine takes on its own
 Internal ==
-  \/ \E p \in Procs : Lock(p) \/ Pass(p) \/ LockRel(p) \/ Release(p) \/ Closed(p)
+  \/ \E p \in Procs : Lock(p) \/ Pass(p) \/ LockRel(p) \/ Release(p) \/ GoReleased(p) \/ GoCounted(p) \/ Closed(p)
   \/ \E i \in Insts : CloseCb(i)
 
 AtRest == (\A p \in Procs : pc[p] \in {"idle", "done"}) /\ UNCHANGED vars
@@ -313,7 +315,7 @@ ParkedConsistent == \A p \in Procs : (pc[p] = "parked") <=> (\E o \in Objs : p \
 
 \* no goroutine can take a step on its own
 Quiescent == \A p \in Procs : /\ ~(pc[p] \in {"wantlock", "wantrel"} /\ mu[w[p]] = "")
-                              /\ pc[p] \notin {"locked", "rellocked"}
+                              /\ pc[p] \notin {"locked", "rellocked", "released", "counted"}
                               /\ ~(pc[p] = "waitclose" /\ ist[seen[p]] \in {"cancelled", "closed"})
              /\ \A i \in Insts : ist[i] # "cancelled"
 
